@@ -211,7 +211,7 @@ func configText(sc Scenario, root string, servers []string, variant string) stri
 		metricKeys = "[pid]"
 	}
 	b.WriteString("metricKeys: " + metricKeys + "\n")
-	b.WriteString("transformations:\n  - type: drop\n    match:\n      kind: dropme\n    percentage: 100\n    metricLabel: filtered\n  - type: parseTime\n    key: time\n    errorLabel: timeError\n" + extra)
+	b.WriteString("transformations:\n  - type: drop\n    match:\n      kind: dropme\n    percentage: 100\n    metricLabel: filtered\n  - type: drop\n    match:\n      kind: dropme2\n    percentage: 100\n    metricLabel: filtered\n  - type: parseTime\n    key: time\n    errorLabel: timeError\n" + extra)
 	if variant == "invalid" {
 		b.WriteString("  - type: nosuchtransform\n")
 	}
@@ -257,6 +257,9 @@ func line(gen, conn, seq int, r Rec, key string) ([]byte, *Expected) {
 	kind := ""
 	if r.Kind == 1 {
 		kind = "[dropme] "
+		if seq%2 == 1 {
+			kind = "[dropme2] " // a second drop rule that reports to the same metric label
+		}
 	} else if r.Kind == 3 {
 		kind = "[xdrop] " // dropped by the drop rule among the input extractions, before the pipeline
 	} else if seq%3 == 0 {
